@@ -102,6 +102,22 @@ func (f *faultyConsul) CAS(p *consulapi.KVPair, q *consulapi.WriteOptions) (bool
 	return f.SimKV.CAS(p, q)
 }
 
+// parkingCodec makes the end of Decode a scheduling point: the client has turned the bytes it read into a value
+// and has not yet looked at anything else the store handed out with them (consul / etcd clients decode outside
+// any lock; never used with the gossip store, which decodes under its own locks).
+type parkingCodec struct {
+	codec.Codec
+	s *sim.Sim
+}
+
+func (c parkingCodec) Decode(b []byte) (interface{}, error) {
+	v, err := c.Codec.Decode(b)
+	if a := c.s.ActorName(); a != "" {
+		c.s.Park(a + "-decoded")
+	}
+	return v, err
+}
+
 type invocation struct {
 	in, out string // canonical; out=="" when f declined or failed
 }
@@ -126,6 +142,9 @@ func runCAS(s *sim.Sim, backend string, starve bool) {
 	switch backend {
 	case "consul":
 		fc.park = s.Chance(0.5, "park-low-level")
+		if s.Chance(0.3, "park-after-decode") {
+			cdc = parkingCodec{cdc, s}
+		}
 		c, closer := consul.NewSimInMemoryClient(cdc, consul.Config{}, logger, func(in consul.SimKV) consul.SimKV {
 			fc.SimKV = in
 			return fc
@@ -133,6 +152,9 @@ func runCAS(s *sim.Sim, backend string, starve bool) {
 		s.OnEnd(func() { _ = closer.Close() })
 		client = c
 	case "etcd":
+		if s.Chance(0.3, "park-after-decode") {
+			cdc = parkingCodec{cdc, s}
+		}
 		c, closer := etcd.NewInMemoryClient(cdc, logger)
 		s.OnEnd(func() { _ = closer.Close() })
 		client = c
